@@ -2586,11 +2586,14 @@ class VM:
             # Valid indices are integer strings in range [0, 2^32-2]
             try:
                 idx = int(key_str)
-                if idx >= 0 and str(idx) == key_str:
-                    obj.set_index(idx, value)
-                    return
-            except (ValueError, IndexError):
-                pass
+            except ValueError:
+                idx = -1
+            if idx >= 0 and str(idx) == key_str:
+                if idx > len(obj._elements):
+                    # Arrays are dense: only the index equal to the length appends
+                    raise JSTypeError("Array index out of bounds: arrays have no holes")
+                obj.set_index(idx, value)
+                return
             # If key looks like a number but isn't a valid integer index, throw
             # This includes NaN, Infinity, -Infinity, floats like "1.2"
             invalid_keys = ("NaN", "Infinity", "-Infinity")
